@@ -88,6 +88,21 @@ def _build():
         g[name] = type(name, (PayloadSink,), {"_send_payload": classmethod(_send_payload), "input_data_type": classmethod(lambda cls, t=icls: t),
                                               "__doc__": f"Generated payload sink of {iname}.", "__module__": __name__})
         FAMILY[name] = dict(kind="payloadSink", inT=iname, outT=iname, created=[], params=["path"])
+        # components that offer both IO roles: the node factory and the adapter factory each pick one; whichever they pick,
+        # the node must mirror the adapter it wraps (descriptor = the data role, which is what both pick on the pinned tree;
+        # `dual` tells the harness not to hold a consistent switch to the payload role against the code)
+        name = f"DualSource_{iname}"
+        g[name] = type(name, (DataSource, PayloadSource), {
+            "_get_data": classmethod(_mk_get_data(icls, name)), "_get_payload": classmethod(_mk_get_payload(icls, name)),
+            "output_data_type": classmethod(lambda cls, t=icls: t), "_injected_context_keys": classmethod(lambda cls: ["pk16"]),
+            "__doc__": f"Generated source of {iname} offering both source roles.", "__module__": __name__})
+        FAMILY[name] = dict(kind="dataSource", inT="NoDataType", outT=iname, created=[], params=["v"], dual=True)
+        name = f"DualSink_{iname}"
+        g[name] = type(name, (DataSink, PayloadSink), {
+            "_send_data": classmethod(_send_data), "_send_payload": classmethod(_send_payload),
+            "input_data_type": classmethod(lambda cls, t=icls: t),
+            "__doc__": f"Generated sink of {iname} offering both sink roles.", "__module__": __name__})
+        FAMILY[name] = dict(kind="dataSink", inT=iname, outT=iname, created=[], params=["path"], dual=True)
 
 
 def _build_bare():
